@@ -589,10 +589,13 @@ fn c12(cases_path: &str, out: &mut dyn Write) {
                 Box::pin(netconf::Session::verif_with_transport(t));
             let mut r = poll_once(&mut est);
             if order == "after" {
-                // the client has sent its hello first and is waiting for ours
-                ctl.push(hello.clone());
-                if r.is_pending() {
-                    r = poll_once(&mut est);
+                // this server sends its hello only once it has seen the client's (both peers must
+                // send their hello without waiting for the other: RFC 6241 section 8.1)
+                if ctl.sent_len() > 0 {
+                    ctl.push(hello.clone());
+                    if r.is_pending() {
+                        r = poll_once(&mut est);
+                    }
                 }
             }
             let client_hello = ctl.sent().first().map(|m| String::from_utf8_lossy(m).to_string()).unwrap_or_default();
